@@ -61,6 +61,41 @@ class ClassV:
         return TypeUnion([o, self])
 
 
+class DynClassV(ClassV):
+    """Class created at run time with type(name, bases, attrs) (Updater's dynamic properties)."""
+
+    def __init__(self, interp, name, bases, attrs):
+        self.name = name
+        self.interp = interp
+        self.base_values = bases
+        self.dyn_attrs = attrs
+        self._mro = None
+        base0 = next((b for b in bases if isinstance(b, ClassV)), None)
+        self.info = _DynInfo(name, base0.info if base0 is not None else None)
+
+    def mro(self):
+        if self._mro is None:
+            res = [self]
+            for b in self.base_values:
+                if isinstance(b, ClassV):
+                    for c in b.mro():
+                        if not any(_same_type(c, x) for x in res):
+                            res.append(c)
+                else:
+                    res.append(b)
+            self._mro = res
+        return self._mro
+
+
+class _DynInfo:
+    def __init__(self, name, base_info):
+        self.name = name
+        self.file = base_info.file if base_info else "<dynamic>"
+        self.module = base_info.module if base_info else None
+        self.members = {}
+        self.bases = []
+
+
 class ExtType:
     """External (torch / builtin / typing) type token."""
 
@@ -79,6 +114,14 @@ class ExtType:
 
     def __call__(self, *a, **k):
         raise Unsupported(f"constructing external type {self.name}")
+
+
+class PropertyType(ExtType):
+    def __init__(self):
+        super().__init__("property")
+
+    def __call__(self, fget=None, fset=None, fdel=None, doc=None):
+        return PropertyV(fget, fset, fdel)
 
 
 class TypeUnion:
@@ -360,6 +403,8 @@ class Interp:
                     break
         # property pieces may be split between classes (setter added in a subclass): merge
         for c in mro[start:]:
+            if isinstance(c, DynClassV) and name in c.dyn_attrs:
+                return c, ("dyn", c.dyn_attrs[name])
             if isinstance(c, ClassV):
                 ent = c.info.members.get(name)
                 if ent is not None:
@@ -400,6 +445,11 @@ class Interp:
             return BoundMethod(obj, clo)
         if kind == "assign":
             return self.eval_in_module(owner_cls.info.module, ent[1], cls=owner_cls.name)
+        if kind == "dyn":
+            v = ent[1]
+            if isinstance(v, Closure) and obj is not None and not isinstance(obj, ClassV):
+                return BoundMethod(obj, v)
+            return v
         if kind == "ext":
             m = ent[1]
             if isinstance(m, ExtMethod):
@@ -414,6 +464,11 @@ class Interp:
         mro = cv.mro()
         merged = None
         for c in mro:
+            if isinstance(c, DynClassV) and name in c.dyn_attrs:
+                v = c.dyn_attrs[name]
+                if isinstance(v, PropertyV):
+                    return {"fget": v.fget, "fset": v.fset, "fdel": v.fdel}
+                return merged
             if isinstance(c, ClassV):
                 ent = c.info.members.get(name)
                 if ent is None:
@@ -519,6 +574,9 @@ class Interp:
     def setattr(self, obj, name, value):
         from . import models
 
+        if isinstance(obj, Obj) and name == "__class__":
+            obj.cls = value
+            return
         if isinstance(obj, Obj):
             cv = obj.cls
             if cv is not None:
@@ -687,8 +745,9 @@ class Interp:
         return env
 
     def call_function(self, fi_or_clo, args, kwargs):
-        clo = fi_or_clo if isinstance(fi_or_clo, Closure) else self.make_closure(fi_or_clo)
-        return self.call(clo, args, kwargs)
+        if isinstance(fi_or_clo, repo.FuncInfo):
+            fi_or_clo = self.make_closure(fi_or_clo)
+        return self.call(fi_or_clo, args, kwargs)
 
     def call(self, fn, args, kwargs):
         from . import models
@@ -1442,6 +1501,8 @@ def _ext_mro(t):
 def _same_type(a, b):
     if a is b:
         return True
+    if isinstance(a, DynClassV) or isinstance(b, DynClassV):
+        return a is b
     if isinstance(a, ClassV) and isinstance(b, ClassV):
         return a.info.name == b.info.name and a.info.file == b.info.file
     if isinstance(a, ExtType) and isinstance(b, ExtType):
